@@ -320,7 +320,7 @@ theorem jobctl_create_retry_adopts (s : Sys) (jo : JobObj) (rj : Job) (tasks : L
     (idx : PIndex) (retry : Int) (p : PodObj) (t : Task) (hf : NextCallOk s)
     (hsrv : findPod s.pods (taskName jo.name idx.hash retry) = some p)
     (hcache : findPod s.podCache (taskName jo.name idx.hash retry) = some p)
-    (hown : p.ownerUid = some jo.uid) (ht : podTask p = some t) :
+    (hown : p.ownerUid = some jo.uid) (ht : podTask s.clock p = some t) :
     ∃ s1, apiCreatePod s jo idx retry = (s1, .exists) ∧
       syncCreateTask s jo rj tasks idx retry = (s1, some (rj, tasks ++ [t])) ∧ s1.pods = s.pods ∧
       (∀ q, (apiCreatePod s jo idx retry).2 ≠ .ok q) ∧
